@@ -228,6 +228,10 @@ func init() {
 func buildStrategy(s SubSpec) strategy.Strategy {
 	subs := make([]strategy.Strategy, len(s.Subs))
 	for i, x := range s.Subs {
+		if x.Same && i > 0 {
+			subs[i] = subs[i-1] // one strategy value listed twice (registries share instances between compounds)
+			continue
+		}
 		subs[i] = buildStrategy(x)
 	}
 	switch s.Entity {
@@ -337,6 +341,10 @@ func genStratSpec(rng *rand.Rand, depth int, allowDefault bool) SubSpec {
 		} else {
 			s.Subs = append(s.Subs, genBaseSpec(rng, allowDefault))
 		}
+	}
+	if n >= 2 && rng.Intn(8) == 0 {
+		s.Subs[1] = s.Subs[0]
+		s.Subs[1].Same = true
 	}
 	return s
 }
